@@ -193,6 +193,7 @@ class Check:
                         self.oblige(f'translate:{u}', 'translation', False, brk[u]['reason'])
                     else:
                         self.oblige(f'translate:{u}', 'translation', True, rep['units'].get(u, ''))
+            self._source_locks()
             ensure_makefile()
             # models/specs first: they must evaluate even when a proof is broken
             self.model_ok = True
@@ -204,6 +205,17 @@ class Check:
                 self._props()
         hits = hygiene_scan()
         self.oblige('hygiene', 'hygiene', not hits, '; '.join(f'{p}: {n}' for p, n in hits))
+
+    def _source_locks(self):
+        """the hand-written models describe the source text they were validated against: compare the normalised-AST
+        fingerprints of every function in the property's cone (manifest/lock_cones.json) with source_locks.json"""
+        try:
+            sys.path.insert(0, os.path.join(ROOT, 'translator'))
+            import srclocks
+            for rel, ok, detail in srclocks.compare(REPO, srclocks.cone(self.pid)):
+                self.oblige(f'source-lock:{rel}', 'translation', ok, detail)
+        except Exception as ex:
+            self.oblige('source-lock', 'translation', False, 'source locks could not be computed: ' + repr(ex)[:500])
 
     def _props(self):
         """build the cone of the property file, then recompile the property file itself to capture
